@@ -33,7 +33,9 @@ func init() {
 		// the word is rendered now: the rule actions edit its nodes in place later
 		ws := "-"
 		if w != nil {
-			ws = skWord(w)
+			// the word of an arithmetic command keeps its blank-separated literals apart
+			arith := len(tokLog) > 0 && tokLog[len(tokLog)-1].typ == parser.LAE
+			ws = skWordM(w, !arith)
 		}
 		tokLog = append(tokLog, tokEv{typ, pos, val, ws})
 		tokMu.Unlock()
